@@ -69,7 +69,7 @@ int Infty::compare(const Basic &o) const
 {
     SYMENGINE_ASSERT(is_a<Infty>(o))
     const Infty &s = down_cast<const Infty &>(o);
-    return _direction->compare(*(s.get_direction()));
+    return _direction->__cmp__(*(s.get_direction()));
 }
 
 bool Infty::is_unsigned_infinity() const
